@@ -21,6 +21,8 @@ impl vstd::std_specs::convert::FromSpecImpl<StagedElements> for DeltaElements {
 }
 pub assume_specification [<DeltaElements as From<StagedElements>>::from] (s: StagedElements) -> (r: DeltaElements) ensures r == staged_as_delta(s);
 pub assume_specification [<DeltaElements as Default>::default] () -> (r: DeltaElements);
+/// ASSUMED (std): mem::take hands out the old value and leaves T::default() behind
+pub assume_specification<T: Default> [core::mem::take::<T>] (dest: &mut T) -> (r: T) ensures r == *old(dest), call_ensures(T::default, (), *final(dest));
 
 /// the statement: the retained deltas form a contiguous run ending at the current serial (newest first)
 pub open spec fn contiguous(s: RrdpServer) -> bool {
